@@ -46,7 +46,9 @@ LINES = {
     0: ["%import zcvpkg_a", "%import zcvpkg_b", "%import ZCVPKG_A", "%import zcvpkg_nocomp", "<pa1 n1/>", "<pa2 n2/>",
         "<pb1/>", "<t1/>", "<t3 x/>", "<abs1 x/>", "<u1/>", "%define pk zcvpkg_a", "%import $pk"],
     # (schema 0 again, other lines) the same type name from two packages, an implementer in only one of them
-    5: ["%import zcvpkg_x", "%import zcvpkg_y", "<dupt n1/>", "<dupt/>", "%import zcvpkg_a", "<pa1 n2/>"],
+    5: ["%import zcvpkg_x", "%import zcvpkg_y", "<dupt n1/>", "<dupt/>", "%import zcvpkg_a", "<pa1 n2/>",
+        # components that import each other; an argument that is more than the name of a package
+        "%import zcvpkg_p", "%import zcvpkg_q", "<pp1/>", "<pq1 n3/>", "%import zcvpkg_a zcvpkg_b", "<pb1/>"],
     1: ["%import zcvpkg_a", "%import zcvpkg_c", "%import zcvmod_plain", "%import zcvpkg_missing", "<pa1 n1/>",
         "<pc1 n2/>", "<pa1 fixed/>", "<t2 n3/>", "<pa2/>", "%import zcvpkg_a.",
         # the name of the fixed-name abstract slot on a type that merely extends an implementer / implements another type
